@@ -69,10 +69,17 @@ contract("monkeytype.cli:print_stub_handler", props=["C10"], theories=TH, pure=F
              "post:stub-printed": "implies(not args_diff(args) and L_stub is not None and not %s, is_print(last_effect(), stdout, '') and print_text(last_effect()) == render_text(L_stub))" % _NODEC,
          })
 
-contract("monkeytype.cli:apply_stub_using_libcst", props=["C15", "C16"], theories=TH, mode="assumed",
+_APPLIED = "cst_applied(cst_parsed(stub), cst_parsed(source), overwrite_existing_annotations, confine_new_imports_in_type_checking_block)"
+contract("monkeytype.cli:apply_stub_using_libcst", props=["C15", "C16"], theories=TH + ["cst"],
          params={"stub": "strp", "source": "strp", "overwrite_existing_annotations": "bool", "confine_new_imports_in_type_checking_block": "bool"}, result="strp",
+         # the glue: which libcst stage is given what. The source is annotated from the stub with exactly the requested overwrite flag, the __future__ import is requested
+         # exactly when confinement is; with confinement the mover is handed get_newly_imported_items(stub, source) - nothing else - and runs on the annotated module;
+         # without it nothing is moved. What the stages do with their inputs is libcst's (bounded: C15 / C16 companions).
+         ensures={"post:pipeline": "result == cst_code(ite(confine_new_imports_in_type_checking_block,"
+                                   " cst_moved(%s, get_newly_imported_items(cst_parsed(stub), cst_parsed(source))), %s))" % (_APPLIED, _APPLIED)},
+         # every failure of libcst reaches the caller as HandlerError
          raises={"HandlerError": None},
-         note="libcst ApplyTypeAnnotationsVisitor: outside the VC generator; decided by the bounded tier of C15 / C16")
+         note="libcst's parse_module / ApplyTypeAnnotationsVisitor / the MoveImportsToTypeCheckingBlockVisitor pipeline are uninterpreted functions of their inputs (T-CST)")
 
 contract("monkeytype.cli:apply_stub_handler", props=["C15", "C13", "C10"], theories=TH, pure=False, effects="write",
          params={"args": "Args", "stdout": "Stream", "stderr": "Stream"}, result="none",
@@ -102,7 +109,6 @@ _BASE = "(%s or %s or %s)" % (_O_SYM, _O_MOD, _O_MAL)
 _G = "gatherer"
 contract("monkeytype.cli:_all_import_items", props=["C16", "C15"], theories=["cst"],
          params={"gatherer": "Gatherer"}, result="Set[Item]",
-         requires={"pairs": "forall_v(lambda m: implies(has(g_aliases(gatherer), m), forall(lookup(g_aliases(gatherer), m), lambda pr: len(pr) == 2)))"},
          ensures={
              # every import the visited module makes, in whichever of the gatherer's views it is recorded, is in the result ...
              "post:symbols": "forall_v(lambda n: implies(has(g_symbols(gatherer), n), has(result, lookup(g_symbols(gatherer), n))))",
@@ -118,3 +124,16 @@ contract("monkeytype.cli:_all_import_items", props=["C16", "C15"], theories=["cs
                 1: {"iter": "gatherer.alias_mapping.items()",
                     "inv": {"members": "forall_v(lambda it: has(items, it) == (%s or %s or %s))" % (_BASE.format(g=_G), _O_OBJ.format(g=_G, n="len(g_objects(gatherer))"), _O_ALI.format(g=_G, n="_i"))}},
                 "tags": {"items": "Set[Item]"}})
+
+_GS, _GT = "gathered_from(stub_module)", "gathered_from(source_module)"
+_IN_SOURCE = "(%s or %s or %s)" % (_BASE.format(g=_GT), _O_OBJ.format(g=_GT, n="len(g_objects(%s))" % _GT), _O_ALI.format(g=_GT, n="len(g_aliases(%s))" % _GT))
+contract("monkeytype.cli:get_newly_imported_items", props=["C16", "C15"], theories=["cst"],
+         params={"stub_module": "CstModule", "source_module": "CstModule"}, result="Seq[Item]",
+         ensures={
+             # every import the source already had stays where it was: nothing the source imports - in whichever of the gatherer's views - is handed to the mover
+             "post:source-imports-never-moved": "forall_v(lambda it: implies(%s, not has(result, it)))" % _IN_SOURCE,
+             # only imports of the stub are moved ...
+             "post:only-stub-imports": "forall_v(lambda it: implies(has(result, it), exists_v(lambda n: has(g_symbols(%s), n) and lookup(g_symbols(%s), n) is it)))" % (_GS, _GS),
+             # ... and every import of the stub that the source does not make is
+             "post:complete": "forall_v(lambda n: implies(has(g_symbols(%s), n), (lambda it: has(result, it) or %s)(lookup(g_symbols(%s), n))))" % (_GS, _IN_SOURCE, _GS),
+         })
